@@ -29,8 +29,13 @@ LinkBandwidth(as, bw) == <<64, 4>> \o U16(as) \o bw                \* draft-ietf
 EsiLabelS(flags, label, low) == <<6, 1, flags, 0, 0>> \o U24(label * 16 + low)
 EsiLabel(flags, label) == EsiLabelS(flags, label, 0)
 \* two extended communities encode the same value (identical octets, except for the unspecified ESI-label bits)
-SameExt(x, y) ==
+SameExt1(x, y) ==
    IF Len(x) = 8 /\ Len(y) = 8 /\ x[1] = 6 /\ x[2] = 1 THEN SubSeq(x, 1, 7) = SubSeq(y, 1, 7) /\ x[8] \div 16 = y[8] \div 16 ELSE x = y
+\* the same for a list of extended communities (8 octets each), element by element
+SameExt(x, y) ==
+   IF Len(x) = Len(y) /\ Len(x) % 8 = 0 /\ Len(x) > 8
+   THEN \A i \in 0..(Len(x) \div 8 - 1) : SameExt1(SubSeq(x, 8 * i + 1, 8 * i + 8), SubSeq(y, 8 * i + 1, 8 * i + 8))
+   ELSE SameExt1(x, y)
 MacMobility(flags, seq) == <<6, 0, flags, 0>> \o U32hl(seq)        \* RFC 7432 7.7
 EsImport(mac) == <<6, 2>> \o mac                                   \* RFC 7432 7.6
 RouterMac(mac) == <<6, 3>> \o mac                                  \* RFC 9135
@@ -70,6 +75,20 @@ RawKinds == {<<0, 2>>, <<1, 2>>, <<2, 2>>, <<0, 3>>, <<1, 3>>, <<2, 3>>, <<3, 11
 RawVals == {<<0, 0, 0, 0, 0, 0>>, <<255, 255, 255, 255, 255, 255>>, <<0, 0, 0, 1, 0, 0>>, <<0, 1, 0, 0, 0, 0>>, <<128, 0, 0, 0, 0, 0>>, <<0, 0, 128, 0, 0, 0>>,
             <<1, 2, 3, 4, 5, 6>>, <<0, 0, 255, 255, 0, 0>>, <<0, 0, 0, 0, 1, 0>>, <<0, 0, 0, 0, 0, 255>>}
 RawPool(lazy) == {Named("raw", k \o v) : k \in RawKinds, v \in RawVals}
+\* several extended communities of one kind, with different field values, in one attribute (both orders)
+KindPairs ==
+   {<<RouteTarget0(1, <<0, 1>>), RouteTarget0(65535, <<65535, 65535>>)>>, <<RouteTarget1(<<10, 1, 2, 3>>, 1), RouteTarget2(<<1, 0>>, 65535)>>,
+    <<RouteOrigin0(1, <<0, 1>>), RouteOrigin2(<<1, 4464>>, 7)>>, <<Color(0, <<0, 1>>), Color(49152, <<65535, 65535>>)>>,
+    <<Encapsulation(8), Encapsulation(15)>>, <<RedirectVrf(1, <<0, 1>>), RedirectVrf(65535, <<1, 0>>)>>,
+    <<RedirectNexthop(<<10, 1, 2, 3>>, 0), RedirectNexthop(<<255, 255, 255, 255>>, 1)>>,
+    <<TrafficRate(0, <<0, 0, 0, 0>>), TrafficRate(65535, <<68, 122, 0, 0>>)>>,
+    <<TrafficAction(1, 0), TrafficAction(0, 1)>>, <<TrafficAction(0, 0), TrafficAction(1, 1)>>,
+    <<TrafficMarking(0), TrafficMarking(63)>>, <<LinkBandwidth(1, <<63, 128, 0, 0>>), LinkBandwidth(65535, <<79, 0, 0, 0>>)>>,
+    <<EsiLabelS(0, 16, 1), EsiLabelS(1, 1048575, 1)>>, <<MacMobility(0, <<0, 1>>), MacMobility(1, <<65535, 65535>>)>>,
+    <<EsImport(<<0, 17, 34, 51, 68, 85>>), EsImport(<<255, 255, 255, 255, 255, 255>>)>>,
+    <<RouterMac(<<0, 17, 34, 51, 68, 85>>), RouterMac(<<170, 187, 204, 221, 238, 1>>)>>}
+MultiPool == {Named("multi", p[1] \o p[2]) : p \in KindPairs} \cup {Named("multi", p[2] \o p[1]) : p \in KindPairs}
+             \cup {Named("multi", p[1] \o q[2] \o p[2]) : p, q \in {x \in KindPairs : x[1][1] \in {128, 0}}}
 \* standard communities: every well-known value the decoder names, their neighbours, and boundary values
 StdPool(lazy) == {Named("community", U32hl(<<65535, x>>)) : x \in {0, 1, 2, 3, 4, 5, 6, 665, 666, 667, 65280, 65281, 65282, 65283, 65284, 65285, 65535}}
            \cup {Named("community", U32hl(<<a, b>>)) : a \in {0, 1, 65000, 65534}, b \in {0, 1, 65535}}
